@@ -142,7 +142,10 @@ def oracle(line, out):
             return "no address for a valid key"
         s = unstr(v)
         if kind == "p2pkh":
-            pl = b58check_dec(s)
+            try:
+                pl = b58check_dec(s)
+            except ValueError:
+                return "P2PKH address (compressed=%s) is not valid Base58Check for an independent decoder" % c
             if pl != bytes([0x6f if t else 0]) + h160(enc):
                 return "P2PKH address (compressed=%s) does not decode to version||HASH160(sec)" % c
         else:
